@@ -41,6 +41,7 @@ def lemmas(tier):
     add("eq_foreign", [("k", "int"), ("other", "int"), sel], "V.eq_foreign(k, sel, 6, other)", ["0 <= k < 10", "0 <= other < 5", "0 <= sel < 11"], "comparing any model node with an unrelated object gives False and never raises")
     add("gate", [("n", "int"), ("bad", "int"), ("plugin", "int")], "V.gate_ok(n, bad, plugin)", ["1 <= n <= 3", "0 <= bad < n", "0 <= plugin < 4"], "schema violation at model #bad of n: main() raises before any plugin runs, nothing written")
     add("gate_real", [("v", "int"), ("position", "int")], "V.gate_real(v, position, v % 4)", ["0 <= v < len(V.VIOLATIONS)", "0 <= position < 2"], "a model file with a single schema-violating edit (14 kinds, first or second on the command line): the generator command fails before any plugin runs, nothing written (real jsonschema.validate)")
+    add("cli_order", [("i0", "int"), ("i1", "int"), ("i2", "int"), ("n", "int")], "V.command_line_order(i0, i1, i2, n)", ["0 <= i0 < 3", "0 <= i1 < 3", "0 <= i2 < 3", "2 <= n <= 3"], "python -m generator --model f.. : the plugin receives the first file extended in command-line order by the others (all orders of three files, repetitions included)")
     add("gate_reach", [("n", "int"), ("plugin", "int")], "V.gate_passes_when_valid(n, plugin)", ["1 <= n <= 3", "0 <= plugin < 4"], "without a violation the plugin runs exactly once (reachability of the gate lemma)")
     return L
 
